@@ -52,6 +52,21 @@ func translateValue(v ssa.Value, bind map[*ssa.Parameter]ssa.Value, depth int) s
 				return v
 			}
 		}
+		if x.Op == token.MUL {
+			// load of a field of a spilled struct parameter: the field of the struct value handed in
+			if fa, ok := x.X.(*ssa.FieldAddr); ok {
+				if al, ok := fa.X.(*ssa.Alloc); ok {
+					if sv := spilledValue(al); sv != nil {
+						tv := translateValue(sv, bind, depth+1)
+						if tv != sv {
+							f := &ssa.Field{X: tv, Field: fa.Field}
+							setRegType(f, x.Type())
+							return f
+						}
+					}
+				}
+			}
+		}
 		tx := translateValue(x.X, bind, depth+1)
 		if tx == x.X {
 			return v
@@ -172,4 +187,36 @@ func parentOf(v ssa.Value) *ssa.Function {
 		return x.Parent()
 	}
 	return nil
+}
+
+// spilledValue: the alloc holds a value stored into it exactly once as a whole and is otherwise only read (loads of
+// the whole or of fields); returns that value.
+func spilledValue(al *ssa.Alloc) ssa.Value {
+	if al.Referrers() == nil {
+		return nil
+	}
+	var val ssa.Value
+	n := 0
+	for _, ref := range *al.Referrers() {
+		switch r := ref.(type) {
+		case *ssa.Store:
+			if r.Addr != ssa.Value(al) {
+				return nil
+			}
+			val = r.Val
+			n++
+		case *ssa.FieldAddr:
+			if r.Referrers() != nil {
+				for _, r2 := range *r.Referrers() {
+					if st, ok := r2.(*ssa.Store); ok && st.Addr == ssa.Value(r) {
+						return nil
+					}
+				}
+			}
+		}
+	}
+	if n != 1 {
+		return nil
+	}
+	return val
 }
